@@ -49,6 +49,7 @@ Template(n, now, ds) ==
   CASE n = "F0"  -> Fixed(A1, D, 10, ts, e2, <<>>)
     [] n = "F1"  -> Fixed(A1, 3 * Half, 10, ts, e2, Sched2(e2))     \* price 1.5: rounding on both denominations
     [] n = "F2"  -> Fixed(A1, D + 1, 7, ts, e1, <<[t |-> e1 + 1, w |-> D]>>)
+    [] n = "F3"  -> Fixed(A1, Half, 9, ts, e2, <<>>)                 \* price 0.5: a selling-denominated bid of an odd amount is worth a fractional number of paying coins
     [] n = "Fl"  -> Fixed(A1, D, 10, ts, e2, Sched3(e2))
     [] n = "FB"  -> [Fixed(UserSeq[2], D, 6, ts, e2, <<>>) EXCEPT !.sellDenom = "dB", !.payDenom = "dA"]
     [] n = "B0"  -> Batch(A1, D, Half, 10, ts, e2, <<>>, 0, Half)
@@ -108,6 +109,10 @@ OddBids(s) ==
             [a |-> "Bid", by |-> UserSeq[2], id |-> id, type |-> "W", price |-> D, denom |-> "dB", amt |-> 0],
             [a |-> "Bid", by |-> UserSeq[2], id |-> id, type |-> "W", price |-> 1, denom |-> "dB", amt |-> 1],
             [a |-> "Bid", by |-> UserSeq[2], id |-> id, type |-> "M", price |-> D, denom |-> "dA", amt |-> 100000] }
+          \cup (IF id \in Ids(s) /\ Auc(s, id).type = "F"
+                THEN { [a |-> "Bid", by |-> u, id |-> id, type |-> "F", price |-> Auc(s, id).startPrice + k, denom |-> dn, amt |-> n] :
+                         u \in Bidders, k \in {1, D}, dn \in {Auc(s, id).payDenom, Auc(s, id).sellDenom}, n \in {1, 3} }
+                ELSE {})
           : id \in {i \in Ids(s) : Len(s.bids[i + 1]) < MaxBids} \cup {Len(s.auctions)} }
 
 Mods(s) ==
@@ -119,7 +124,16 @@ Mods(s) ==
                        : k \in 1..Len(s.bids[id + 1]) }
           ELSE {} : id \in Ids(s) }
 
+OtherDenom(dn) == IF dn = "dA" THEN "dB" ELSE "dA"
 OddMods(s) ==
+  UNION { IF Auc(s, id).status = "Started" /\ Auc(s, id).type = "B"
+          THEN UNION { { [a |-> "Modify", by |-> s.bids[id + 1][k].bidder, id |-> id, bid |-> k, price |-> p,
+                          denom |-> OtherDenom(s.bids[id + 1][k].denom), amt |-> n] :
+                           p \in {q \in Prices : q >= s.bids[id + 1][k].price},
+                           n \in {q \in Amts : q >= s.bids[id + 1][k].amt} }
+                       : k \in 1..Len(s.bids[id + 1]) }
+          ELSE {} : id \in Ids(s) }
+  \cup
   UNION { { [a |-> "Modify", by |-> u, id |-> id, bid |-> k, price |-> p, denom |-> dn, amt |-> n] :
               u \in {UserSeq[2], UserSeq[Len(UserSeq)]}, k \in {1, 2}, p \in {Half, D, 2 * D},
               dn \in {"dA", "dB"}, n \in {0, 1, 3} }
